@@ -2,6 +2,7 @@
 from __future__ import annotations
 
 import threading
+import time
 from http.server import BaseHTTPRequestHandler, ThreadingHTTPServer
 
 
@@ -35,6 +36,7 @@ class Recorder:
                     "target": self.raw_requestline.split()[1].decode("latin-1"),
                     "headers": [(k, v) for k, v in self.headers.items()],
                     "body": body,
+                    "t": time.monotonic(),
                 }
                 with rec.lock:
                     rec.requests.append(item)
